@@ -169,6 +169,10 @@ func (b *backend) List(ctx context.Context, r *proto.RangeRequest) (resp *proto.
 		resp.More = true
 		kvs = kvs[0:r.Limit]
 	}
+	for _, kv := range kvs {
+		// a read at a revision above the committed one may see newer data, as in Get
+		resp.Header.Revision = maxUint64(resp.Header.Revision, kv.Revision)
+	}
 	resp.Kvs = kvs
 	return resp, nil
 }
